@@ -346,3 +346,252 @@ def first_pixel_diff(a: list[list[tuple]], b: list[list[tuple]]) -> str | None:
             if tuple(pa) != tuple(pb):
                 return f"pixel ({i},{j}): got {tuple(pa)} expected {tuple(pb)}"
     return None
+
+
+# ----------------------------------------------------------------------------------------------
+# token-stream decoder (C06 / C07) - configured only from a parameter dict, never from library objects
+# ----------------------------------------------------------------------------------------------
+#
+# params = {
+#   "seq": "AOTP" | "AOP",
+#   "coord": {"kind": "UT"} | {"kind": "CTT", "pre": b, "intra": b, "post": b},
+#   "adj": {"cls": "coord" | "cardinal", "post": b, "shuffle_d0": b, "ordinal": 0|1|2,
+#           "subset": "all" | "conn" | "walls", "permuter": "sorted" | "random" | "both"},
+#   "target": {"post": b},                                   (AOTP only)
+#   "path": {"step_size": "singles" | "forks", "steps": [...of "coord","cardinal","relative","distance"], "pre": b, "intra": b, "post": b},
+# }
+
+import re as _re
+
+DELIMS = ["<ADJLIST_START>", "<ADJLIST_END>", "<ORIGIN_START>", "<ORIGIN_END>", "<TARGET_START>", "<TARGET_END>", "<PATH_START>", "<PATH_END>"]
+COMPASS = [(-1, 0), (0, 1), (1, 0), (0, -1)]  # N, E, S, W clockwise
+CARDINAL_WORD = {(-1, 0): "NORTH", (1, 0): "SOUTH", (0, -1): "WEST", (0, 1): "EAST"}
+WORD_CARDINAL = {v: k for k, v in CARDINAL_WORD.items()}
+
+
+class DecodeError(Exception):
+    pass
+
+
+def coord_tokens(cp: dict, cell) -> list[str]:
+    r, c = int(cell[0]), int(cell[1])
+    if cp["kind"] == "UT":
+        return [f"({r},{c})"]
+    out = []
+    if cp.get("pre", True):
+        out.append("(")
+    out.append(str(r))
+    if cp.get("intra", True):
+        out.append(",")
+    out.append(str(c))
+    if cp.get("post", True):
+        out.append(")")
+    return out
+
+
+def parse_coord(cp: dict, toks: list[str], i: int):
+    """returns ((r,c), next index) or raises DecodeError"""
+    try:
+        if cp["kind"] == "UT":
+            m = _re.fullmatch(r"\((\d+),(\d+)\)", toks[i])
+            if not m:
+                raise DecodeError(f"expected a coordinate token at {i}, got {toks[i]!r}")
+            return (int(m.group(1)), int(m.group(2))), i + 1
+        if cp.get("pre", True):
+            if toks[i] != "(":
+                raise DecodeError(f"expected '(' at {i}, got {toks[i]!r}")
+            i += 1
+        if not _re.fullmatch(r"\d+", toks[i]):
+            raise DecodeError(f"expected a row index at {i}, got {toks[i]!r}")
+        r = int(toks[i])
+        i += 1
+        if cp.get("intra", True):
+            if toks[i] != ",":
+                raise DecodeError(f"expected ',' at {i}, got {toks[i]!r}")
+            i += 1
+        if not _re.fullmatch(r"\d+", toks[i]):
+            raise DecodeError(f"expected a column index at {i}, got {toks[i]!r}")
+        c = int(toks[i])
+        i += 1
+        if cp.get("post", True):
+            if toks[i] != ")":
+                raise DecodeError(f"expected ')' at {i}, got {toks[i]!r}")
+            i += 1
+        return (r, c), i
+    except IndexError:
+        raise DecodeError("token stream ends inside a coordinate")
+
+
+def split_regions(tokens: list[str], kind: str) -> dict:
+    """check the delimiter structure for the maze kind and cut the regions"""
+    want = {"lattice": DELIMS[:2], "targeted": DELIMS[:6], "solved": DELIMS[:8]}[kind]
+    for d in DELIMS:
+        n = tokens.count(d)
+        if d in want and n != 1:
+            raise DecodeError(f"delimiter {d} occurs {n} times, expected exactly once")
+        if d not in want and n != 0:
+            raise DecodeError(f"delimiter {d} present but a {kind} maze has no such region")
+    pos = [tokens.index(d) for d in want]
+    if pos != sorted(pos):
+        raise DecodeError(f"delimiters out of order: {[tokens[p] for p in sorted(pos)]}")
+    if pos[0] != 0 or pos[-1] != len(tokens) - 1:
+        raise DecodeError("tokens outside the outermost delimiters")
+    for a, b in zip(pos[1::2], pos[2::2]):
+        if b != a + 1:
+            raise DecodeError(f"tokens between {tokens[a]} and {tokens[b]}")
+    out = {"adj": tokens[pos[0] + 1 : pos[1]]}
+    if len(want) >= 6:
+        out["origin"] = tokens[pos[2] + 1 : pos[3]]
+        out["target"] = tokens[pos[4] + 1 : pos[5]]
+    if len(want) == 8:
+        out["path"] = tokens[pos[6] + 1 : pos[7]]
+    return out
+
+
+def parse_adjacency(params: dict, toks: list[str]) -> list[tuple]:
+    """-> list of (lead, trail, is_connection)"""
+    ap, cp = params["adj"], params["coord"]
+    order = ["lead", "trail"]
+    order.insert(ap["ordinal"], "conn")
+    i, out = 0, []
+    while i < len(toks):
+        ent: dict = {}
+        for part in order:
+            if part == "conn":
+                if i >= len(toks) or toks[i] not in ("<-->", "<XX>"):
+                    raise DecodeError(f"expected a connector token at {i}, got {toks[i] if i < len(toks) else None!r}")
+                ent["conn"] = toks[i] == "<-->"
+                i += 1
+            elif part == "lead" or ap["cls"] == "coord":
+                ent[part], i = parse_coord(cp, toks, i)
+            else:
+                if i >= len(toks) or toks[i] not in WORD_CARDINAL:
+                    raise DecodeError(f"expected a cardinal word at {i}, got {toks[i] if i < len(toks) else None!r}")
+                ent["dir"] = WORD_CARDINAL[toks[i]]
+                i += 1
+        if ap["cls"] == "cardinal":
+            ent["trail"] = (ent["lead"][0] + ent["dir"][0], ent["lead"][1] + ent["dir"][1])
+        if ap["post"]:
+            if i >= len(toks) or toks[i] != ";":
+                raise DecodeError(f"expected ';' at {i}, got {toks[i] if i < len(toks) else None!r}")
+            i += 1
+        out.append((ent["lead"], ent["trail"], ent["conn"]))
+    return out
+
+
+def expected_adjacency(params: dict, g: dict):
+    """multiset the adjacency region must encode: Counter of (lead, trail, flag) up to the allowed freedom"""
+    from collections import Counter
+
+    conn = {frozenset(e) for e in edges_of(g)}
+    lat = [frozenset(e) for e in lattice_edges(g["r"], g["c"])]
+    sub = params["adj"]["subset"]
+    sel = lat if sub == "all" else [e for e in lat if (e in conn) == (sub == "conn")]
+    return Counter({(e, e in conn): (2 if params["adj"]["permuter"] == "both" else 1) for e in sel})
+
+
+def step_indices(params: dict, g: dict, sol) -> list[int]:
+    n = len(sol)
+    if params["path"]["step_size"] == "singles":
+        return list(range(n))
+    a = adj(g)
+    idx = []
+    for i, u in enumerate(sol):
+        end = i == 0 or i == n - 1
+        if end or len(a[tuple(u)]) > 2:
+            idx.append(i)
+    return idx
+
+
+def relative_word(prev_move, move) -> str:
+    if move == prev_move:
+        return "FORWARD"
+    if move == (-prev_move[0], -prev_move[1]):
+        return "BACKWARD"
+    h, m = COMPASS.index(prev_move), COMPASS.index(move)
+    return "RIGHT" if (h + 1) % 4 == m else "LEFT"
+
+
+def expected_path_tokens(params: dict, g: dict, sol) -> list[str]:
+    pp, cp = params["path"], params["coord"]
+    sol = [tuple(q) for q in sol]
+    out: list[str] = []
+    if "coord" in pp["steps"]:
+        if pp["pre"]:
+            out.append("STEP")
+        out += coord_tokens(cp, sol[0])
+        if pp["intra"]:
+            out.append(":")
+    idx = step_indices(params, g, sol)
+    for i, j in zip(idx[:-1], idx[1:]):
+        if pp["pre"]:
+            out.append("STEP")
+        for st_ in pp["steps"]:
+            if st_ == "coord":
+                out += coord_tokens(cp, sol[j])
+            elif st_ == "cardinal":
+                out.append(CARDINAL_WORD[(sol[i + 1][0] - sol[i][0], sol[i + 1][1] - sol[i][1])])
+            elif st_ == "relative":
+                prev = (-1, 0) if i == 0 else (sol[i][0] - sol[i - 1][0], sol[i][1] - sol[i - 1][1])
+                out.append(relative_word(prev, (sol[i + 1][0] - sol[i][0], sol[i + 1][1] - sol[i][1])))
+            elif st_ == "distance":
+                out.append(f"+{j - i}")
+            if pp["intra"]:
+                out.append(":")
+        if pp["post"]:
+            out.append("THEN")
+    return out
+
+
+def check_stream(params: dict, tokens: list[str], kind: str, g: dict, sol) -> str | None:
+    """None when the stream is a faithful encoding of the maze under `params`, else a description of the first problem"""
+    from collections import Counter
+
+    try:
+        reg = split_regions(list(tokens), kind)
+        ents = parse_adjacency(params, reg["adj"])
+    except DecodeError as e:
+        return str(e)
+    r, c = g["r"], g["c"]
+    got: Counter = Counter()
+    seen_oriented: Counter = Counter()
+    for lead, trail, flag in ents:
+        if not (0 <= lead[0] < r and 0 <= lead[1] < c and 0 <= trail[0] < r and 0 <= trail[1] < c):
+            return f"adjacency entry {lead}-{trail} leaves the {r}x{c} grid"
+        if abs(lead[0] - trail[0]) + abs(lead[1] - trail[1]) != 1:
+            return f"adjacency entry {lead}-{trail} is not a lattice edge"
+        got[(frozenset((lead, trail)), flag)] += 1
+        seen_oriented[(lead, trail)] += 1
+    want = expected_adjacency(params, g)
+    if got != want:
+        extra = list((got - want).items())[:3]
+        missing = list((want - got).items())[:3]
+        return f"adjacency region encodes the wrong edge multiset: unexpected {[(sorted(e), f, n) for (e, f), n in extra]}, missing {[(sorted(e), f, n) for (e, f), n in missing]}"
+    if params["adj"]["permuter"] == "both" and any(n != 1 for n in seen_oriented.values()):
+        return "with both orientations requested an edge must appear once per orientation"
+    if kind == "lattice":
+        return None
+    cp = params["coord"]
+    if reg["origin"] != coord_tokens(cp, sol[0]):
+        return f"origin region {reg['origin']} does not encode the start {tuple(sol[0])}"
+    if params["seq"] == "AOP":
+        if reg["target"]:
+            return f"target region must be empty for an AOP tokenizer, got {reg['target']}"
+    else:
+        want_t = coord_tokens(cp, sol[-1]) + (["||"] if params["target"]["post"] else [])
+        if reg["target"] != want_t:
+            return f"target region {reg['target']} does not encode the end {tuple(sol[-1])} (expected {want_t})"
+    if kind == "solved":
+        want_p = expected_path_tokens(params, g, sol)
+        if reg["path"] != want_p:
+            k = next((i for i, (x, y) in enumerate(zip(reg["path"], want_p)) if x != y), min(len(reg["path"]), len(want_p)))
+            return f"path region differs at token {k}: got {reg['path'][max(0, k - 2):k + 3]}, expected {want_p[max(0, k - 2):k + 3]} (lengths {len(reg['path'])}/{len(want_p)})"
+    return None
+
+
+LEGACY_PARAMS = {
+    "UT": {"seq": "AOTP", "coord": {"kind": "UT"},
+           "adj": {"cls": "coord", "post": True, "shuffle_d0": True, "ordinal": 1, "subset": "conn", "permuter": "random"},
+           "target": {"post": False}, "path": {"step_size": "singles", "steps": ["coord"], "pre": False, "intra": False, "post": False}},
+}
+LEGACY_PARAMS["CTT"] = {**LEGACY_PARAMS["UT"], "coord": {"kind": "CTT", "pre": True, "intra": True, "post": True}}
